@@ -20,6 +20,29 @@ CHECKS = {
                 "Distinct by SHA-256 of the case JSON.",
         "assumptions": COMMON_ASSUME,
     },
+    "C02": {
+        "test": "TestC02",
+        "quick": {"shards": 8, "checks": 800},
+        "thorough": {"shards": 16, "checks": 2500},
+        "rule": "histories as in C01; after every block up to 3 prove requests (one / two / sibling pairs / all / random third / one per tree / one per row, "
+                "in ascending, descending or rapid-permuted order) sent to Pollard, a full MapPollard and a partial MapPollard (restricted to the leaves it "
+                "was asked to remember); each proof compared hash-for-hash with the model's canonical proof and fed to Verify, Pollard.Verify and every "
+                "MapPollard.Verify; Verify's root indexes compared as a set with the trees holding the targets. Non-trivial case: contains a request with "
+                ">=2 targets in which a sibling hash is omitted because it is computable or a target sits above row 0. Distinct by case hash.",
+        "assumptions": COMMON_ASSUME,
+    },
+    "C16": {
+        "test": "TestC16",
+        "quick": {"shards": 8, "checks": 20000},
+        "thorough": {"shards": 16, "checks": 200000},
+        "rule": "two parts. Enumerated (complete, dealt over shards): heights 0..7 (thorough 0..9): every position x {DetectRow, Parent, Left/RightChild, "
+                "ParentMany/ChildMany for every rise/drop incl. out of range}; every leaf count x {TreeRows, RootPositions}; every node of every forest x "
+                "DetectOffset (validated by walking the returned bits from the geometric root); ProofPositions for every non-empty leaf subset of n<=16 "
+                "(thorough 20) leaves in layouts Rows(n), Rows(n)+1 and 63. Generated (rapid): heights 0..63 with boundary offsets/leaf counts and random "
+                "64-bit values, mixed-row non-nested target sets. Non-trivial: (height>=1 and row>=1) or >=2 targets or n>=2; generated points that fall "
+                "inside the enumerated sub-space are not counted again.",
+        "assumptions": ["independent geometry of harness/model (row r of an R-row layout starts at 2^(R+1)-2^(R+1-r))", "translatePos is unexported: covered through MapPollard coordinates in C01/C02/C09/C10"],
+    },
 }
 
 TRUST = ("Trusted base: the reference model (harness/model, cross-checked against an operational twin and hand vectors), Go's crypto/sha256 and "
@@ -34,6 +57,21 @@ MANIFEST_TEXT = {
         "design_ref": "DESIGN.md section 6 C01",
         "level_note": TRUST,
         "technique": "property-based testing (rapid), model-based oracle + metamorphic re-batching",
+    },
+    "C02": {
+        "level_text": "Exploration: canonical-proof equality against the reference model for generated request shapes on generated states, for all three "
+                      "provers, and acceptance by all verifiers. Unbounded domain (states x subsets x orders): sampled, with the shape distribution measured.",
+        "design_ref": "DESIGN.md section 6 C02",
+        "level_note": TRUST,
+        "technique": "property-based testing (rapid), model-based oracle (canonical proof), differential between provers",
+    },
+    "C16": {
+        "level_text": "Exploration with a completely enumerated finite sub-space (all heights <=7/9, all leaf subsets of n<=16/20) plus rapid sampling of "
+                      "boundary and random values for heights up to 63. The full domain (2^64 positions x 64 heights) cannot be enumerated.",
+        "design_ref": "DESIGN.md section 6 C16",
+        "level_note": "Trusted base: the independent geometry in harness/model (about 30 lines of integer arithmetic, checked by hand vectors), rapid. "
+                      "Exploration: held on everything enumerated/generated.",
+        "technique": "exhaustive small-scope enumeration + property-based testing (rapid) against an independent geometric oracle",
     },
 }
 
